@@ -200,6 +200,8 @@ def search_ok__twin(s: int) -> bool:
 # ---- helper rule in isolation: _is_allowed(feature, func, previous features) for every previous SET and feature ---------
 TERN = list(itertools.product(range(3), repeat=len(KEYS)))   # per key: 0 not in the space, 1 in the space, 2 also applied
 NT = len(TERN)
+T_LO = int(os.environ.get('VH_TLO', '0'))
+T_HI = int(os.environ.get('VH_THI', str(NT)))
 
 
 def _body_allowed(t, f):
@@ -222,20 +224,20 @@ def _body_allowed(t, f):
 
 def allowed_ok(t: int, f: int) -> bool:
     """
-    pre: 0 <= t < NT and 0 <= f < len(KEYS)
+    pre: T_LO <= t < T_HI and 0 <= f < len(KEYS)
     post: _ in (True, None)
     """
-    c = [_pick(t, 0, NT), _pick(f, 0, len(KEYS))]
+    c = [_pick(t, T_LO, T_HI), _pick(f, 0, len(KEYS))]
     with _NoTracing():
         return _body_allowed(*c)
 
 
 def allowed_ok__twin(t: int, f: int) -> bool:
     """
-    pre: 0 <= t < NT and 0 <= f < len(KEYS)
+    pre: T_LO <= t < T_HI and 0 <= f < len(KEYS)
     post: _ == True
     """
-    c = [_pick(t, 0, NT), _pick(f, 0, len(KEYS))]
+    c = [_pick(t, T_LO, T_HI), _pick(f, 0, len(KEYS))]
     with _NoTracing():
         return _body_allowed(*c) is not True
 
@@ -259,9 +261,11 @@ def _iiv_models():
 IIV_T = _iiv_models()
 NB = len(IIV_T)
 PARAMS = ['CL', 'VC', 'QP1', 'VP1']
-KEEP_T = [list(c) for r in range(len(PARAMS) + 1) for c in itertools.combinations(PARAMS, r)]
-NKEEP = len(KEEP_T)
-OFFSETS = [0, 3, 17]
+KEEP_T = [list(c) for r in range(len(PARAMS) + 1) for c in itertools.combinations(PARAMS, r)]   # by size
+NKEEP = int(os.environ.get('VH_NKEEP', len(KEEP_T)))      # quick: the first 5 (sizes 0 and 1)
+OFFSETS = [0, 3, 17][:int(os.environ.get('VH_NOFF', '3'))]
+B_LO = int(os.environ.get('VH_BLO', '0'))
+B_HI = int(os.environ.get('VH_BHI', str(len(IIV_T))))
 
 
 def _set_partitions(xs):
@@ -313,19 +317,19 @@ def _body_iiv(b, k, o):
 
 def iiv_ok(b: int, k: int, o: int) -> bool:
     """
-    pre: 0 <= b < NB and 0 <= k < NKEEP and 0 <= o < len(OFFSETS)
+    pre: B_LO <= b < B_HI and 0 <= k < NKEEP and 0 <= o < len(OFFSETS)
     post: _ in (True, None)
     """
-    c = [_pick(b, 0, NB), _pick(k, 0, NKEEP), _pick(o, 0, len(OFFSETS))]
+    c = [_pick(b, B_LO, B_HI), _pick(k, 0, NKEEP), _pick(o, 0, len(OFFSETS))]
     with _NoTracing():
         return _body_iiv(*c)
 
 
 def iiv_ok__twin(b: int, k: int, o: int) -> bool:
     """
-    pre: 0 <= b < NB and 0 <= k < NKEEP and 0 <= o < len(OFFSETS)
+    pre: B_LO <= b < B_HI and 0 <= k < NKEEP and 0 <= o < len(OFFSETS)
     post: _ == True
     """
-    c = [_pick(b, 0, NB), _pick(k, 0, NKEEP), _pick(o, 0, len(OFFSETS))]
+    c = [_pick(b, B_LO, B_HI), _pick(k, 0, NKEEP), _pick(o, 0, len(OFFSETS))]
     with _NoTracing():
         return _body_iiv(*c) is not True
